@@ -5,6 +5,7 @@ in-process on random layouts, offsets (inside, before, across private blocks, at
 import json
 import os
 
+from vlib import core
 from vlib.core import SplitMix
 
 # proposed_fix.diff applied to /repo?  (the model must follow the code): flip when the fix: commit lands
@@ -39,6 +40,124 @@ def pick_offset(rng, bl, size):
 
 def flat(bl):
     return J([x for b in bl for x in b])
+
+
+PAGE = 4096
+PLAT = """<?xml version='1.0'?>
+<!DOCTYPE platform SYSTEM "https://simgrid.org/simgrid.dtd">
+<platform version="4.1">
+  <zone id="AS0" routing="Full">
+    <cluster id="c" prefix="h" suffix="" radical="0-1" speed="1Gf" bw="125MBps" lat="50us"/>
+  </zone>
+</platform>
+"""
+
+
+def e2e_alloc(rng):
+    """a partially shared allocation: size, shared blocks (byte offsets; the library shares the page-aligned inside)"""
+    size = rng.choice([10, 20, 40]) * PAGE
+    sh, pos = [], 0
+    for _ in range(rng.range(0, 3)):
+        b = pos + rng.range(0, 4) * PAGE + rng.choice([0, 0, 1, 17, 2048])
+        e = b + rng.range(1, 5) * PAGE + rng.choice([0, 0, 1, 100])
+        if e >= size:
+            break
+        sh.append((b, e))
+        pos = e + 1
+    return size, sh
+
+
+def e2e_bounds(sh):
+    out = []
+    for b, e in sh:
+        out += [(b + PAGE - 1) // PAGE * PAGE, e // PAGE * PAGE]
+    return out
+
+
+def gen_e2e(rng, n):
+    """end-to-end cases for e2e.cpp: mode, two allocations, offsets, sizes, sample positions"""
+    cases = []
+    for _ in range(n):
+        mode = rng.choice(["e", "b", "r"])
+        sS, shS = e2e_alloc(rng)
+        sR, shR = e2e_alloc(rng)
+        bS, bR = e2e_bounds(shS), e2e_bounds(shR)
+        offS = rng.choice([0, 100, rng.range(0, sS // 2)] + [max(x - rng.choice([0, 1, 50]), 0) for x in bS])
+        offR = rng.choice([0, 50, rng.range(0, sR // 2)] + [max(x - rng.choice([0, 1, 50]), 0) for x in bR])
+        room = min(sS - offS, sR - offR)
+        nS = rng.range(1, room)
+        if mode == "e":
+            nS = min(nS, 60000)                       # below smpi/send-is-detached-thresh (65536): eager
+        nR = min(nS + rng.choice([0, 0, 64]), sR - offR)
+        xs = {0, 1, nS - 1, max(nS - 2, 0), nR - 1}
+        for x in bS:
+            xs |= {x - offS - 1, x - offS, x - offS + 1}
+        for x in bR:
+            xs |= {x - offR - 1, x - offR, x - offR + 1}
+        for _ in range(30):
+            xs.add(rng.range(0, nR - 1))
+        xs = sorted(x for x in xs if 0 <= x < nR)
+        cases.append({"mode": mode, "sS": sS, "shS": shS, "offS": offS, "sR": sR, "shR": shR, "offR": offR, "nS": nS, "nR": nR,
+                      "xs": xs})
+    return cases
+
+
+def e2e_line(c):
+    return " ".join(map(str, [c["mode"], c["sS"], len(c["shS"])] + [v for b in c["shS"] for v in b] + [c["offS"], c["sR"], len(c["shR"])] +
+                        [v for b in c["shR"] for v in b] + [c["offR"], c["nS"], c["nR"], len(c["xs"])] + c["xs"]))
+
+
+def run_e2e(ctx, drv, fixed, cases):
+    """run e2e.cpp under smpirun -np 2 and judge every case with the Lean model of the send modes (Modes.lean)"""
+    h = ctx.build_harness("e2e.cpp", smpi=True, lang="c++")
+    if not h:
+        return
+    plat, hosts, script = (os.path.join(ctx.work, x) for x in ("plat.xml", "hosts", "e2e.txt"))
+    open(plat, "w").write(PLAT)
+    open(hosts, "w").write("h0\nh1\n")
+    open(script, "w").write("\n".join(e2e_line(c) for c in cases) + "\n")
+    cmd = [os.path.join(core.SGBUILD, "smpi_script", "bin", "smpirun"), "-np", "2", "-platform", plat, "-hostfile", hosts,
+           "--log=root.thres:critical", "--cfg=smpi/shared-malloc-blocksize:%d" % PAGE, h, script]
+    try:
+        p = core.sh(cmd, timeout=600, env=ctx.sg_env(), cwd=ctx.work)
+    except Exception as e:
+        ctx.broken.append({"kind": "e2e-run", "error": str(e)[:500]})
+        return
+    if p.returncode != 0:
+        ctx.broken.append({"kind": "e2e-run", "rc": p.returncode, "stderr": p.stderr[-1500:]})
+        return
+    rec = {}
+    for l in p.stdout.split("\n"):
+        t = l.split()
+        if len(t) >= 2 and t[0] in "SVDBA" and t[1].isdigit():
+            rec.setdefault(int(t[1]), {})[t[0]] = t[2:]
+    qs, owners = [], []
+    for i, c in enumerate(cases):
+        r = rec.get(i, {})
+        if not all(k in r for k in "SVDBA") or not (len(r["V"]) == len(r["B"]) == len(r["A"]) == len(c["xs"])):
+            ctx.broken.append({"kind": "e2e-output", "case": c, "got": {k: v[:10] for k, v in r.items()}})
+            continue
+        trip = " ".join("%d %s %s" % (x, sv, dv) for x, sv, dv in zip(c["xs"], r["V"], r["B"]))
+        qs.append("E2 %s %d %d | %s | %s | %s => %s" % (c["mode"], c["nS"], c["nR"], " ".join(r["S"]), " ".join(r["D"]), trip,
+                                                      " ".join(r["A"])))
+        owners.append(c)
+    rc, verdicts, err = ctx.run_lines([drv] + (["fixed"] if fixed else []), qs)
+    if rc != 0 or not verdicts or verdicts[-1] != "END %d" % len(qs):
+        ctx.broken.append({"kind": "driver-run-e2e", "rc": rc, "stderr": err[-2000:]})
+        return
+    modes = {}
+    for q, v, c in zip(qs, verdicts, owners):
+        ctx.cov["evaluations"] += 1
+        modes[c["mode"]] = modes.get(c["mode"], 0) + 1
+        if v == "ok":
+            ctx.cov["traces_validated_against_impl"] += 1
+            if c["shS"] or c["shR"]:
+                ctx.cov["distinct_nontrivial"] += 1
+        elif v.startswith("MONFAIL"):
+            ctx.violation(v[:400], {"e2e": c, "query": q[:1500]}, key=None)
+        elif len(ctx.broken) < 40:
+            ctx.broken.append({"kind": "correspondence-e2e", "case": c, "verdict": v[:600]})
+    ctx.cov["e2e_cases_by_mode"] = modes
 
 
 def gen(rng, n):
@@ -118,4 +237,10 @@ def run(ctx):
         elif len(ctx.broken) < 40:
             ctx.broken.append({"kind": "correspondence", "case": case})
     ctx.cov["distribution"] = kinds
+    if not ctx.replay:
+        # end to end: real MPI transfers between partially shared buffers in the three send modes, judged with Modes.lean
+        ne = 40 if ctx.tier == "quick" else 400
+        e2e_corpus = [{"mode": m, "sS": 40960, "shS": [(8192, 16384)], "offS": 100, "sR": 40960, "shR": [(20480, 28672)], "offR": 50,
+                       "nS": 20000, "nR": 20000, "xs": [0, 1, 8091, 8092, 8093, 16283, 16284, 19999]} for m in ("e", "r", "b")]
+        run_e2e(ctx, drv, fixed, e2e_corpus + gen_e2e(SplitMix(ctx.seed).fork(77), ne))
     ctx.cov["samples"] = out[:2] + out[len(corpus):len(corpus) + 4]
